@@ -179,7 +179,8 @@ def impl_level(rep, impl):
     st = rep.extra.setdefault('implementation_level_traces', {'validated': 0, 'accepted': 0, 'rejected_as_drift': 0})
     with tlc.Scratch() as s:
         for (n, rate), traces in sorted(impl.items()):
-            traces = traces[:600]
+            # (validation time grows steeply with the number of recordings: silent steps branch)
+            traces = traces[:600 if n <= 4 else 100]
             for i, t in enumerate(traces):
                 t['id'] = i + 1
             name = 'MC_%s_impl_%d_%d' % (rep.prop, n, rate)
